@@ -19,6 +19,9 @@ CHECKS = {
  "C06": (True, "fault_enumeration", "reference-model monitor (interval containment) over the syn projection of real compiler output; exhaustive enumeration of the 53-point boundary pairs x marker x 9 contexts + seeded random unions/intersections/serial constraints",
          "All (lower<=upper) pairs of the property's 53-point boundary set, with and without extension marker, are compiled in nine contexts and every emitted integer type token (resolved through delegate newtypes) must contain the permitted set and be arbitrary-precision when extensible or half-open; every integer literal of constants/DEFAULT functions must fit its declared or suffix type. Exhaustive for the stated space; random 2-operand combinations sampled.",
          "Trusted: interval model harness/src/iv.rs (brute-force unit test), syn projection. For serial constraints only 'both carry a marker' is treated as extensible; other marker placements are judged on containment only (X.680 50.8-50.10 latitude).", "DESIGN.md §4 C06"),
+ "C07": (True, "exploration", "reference-model monitor with a symbolic evaluator: the emitted const/static initialisers and *_default functions of the syn projection are evaluated to abstract values (integers, booleans, unit, strings, bit vectors, byte vectors, OID arcs, enumerals, tagged variants, records, lists) and compared with the value the harness put into the source",
+         "Held on the executions observed: 60k (quick) / 600k (thorough) generated values of every listed notation, each observed at four sites (value assignment, value reference to it, DEFAULT, DEFAULT through the value reference). Evaluator-unknown expression forms are inconclusive (0 on the pinned tree).",
+         "Trusted: the evaluator in c07.rs (it models the expression forms the templates emit; newtype wrapping is transparent), X.660 well-known arc table, named-bit values compared modulo trailing zero bits (X.680 22.7). DER-level comparison through compiled bindings is not part of this revision.", "DESIGN.md §4 C07"),
  "C08": (True, "exploration", "process-level monitor: worker processes (8 MiB main stack) run compile_to_string with both backends plus Display/contextualize of every error and warning; driver observes call/return events, exit status, terminating signal, panic hook and H3 linker step counters (hang decided on steps, wall-clock only inconclusive)",
          "Held on the executions observed: every char-boundary prefix of the N smallest corpus modules (exhaustive), plus seeded soup / token mutation / snippet composition / deep nesting / open-at-EOF workloads; a panic, a signal death or a step-budget excess is a violation with the input as witness. Sampling, not proof: 'for all UTF-8 strings' is out of reach.",
          "Trusted: OS process status, the panic hook, hook H3 counters. Exponential-time lexer backtracking on deeply nested syntax errors shows up as watchdog firings below the step budget and is reported as inconclusive, not as violation.", "DESIGN.md §4 C08"),
